@@ -8,6 +8,8 @@ CONSTANTS
   FromInput <- FromBoth
   ExplicitTargets = TRUE
   Refusals = TRUE
+  ZeroHeightRefused = FALSE
+  AlignTarget = FALSE
   MaxLevel = 3
 INIT Init
 NEXT Next
